@@ -30,6 +30,6 @@ func init() {
 	add("C16", "qps 3 and a slow source (SCANs taking 0.5-3 s)", "no target reply may be unread by the tool when Main returns")
 	add("C17", "a quarter of the runs find a longer earlier output at the output path", "slow storage (io_stall) in a third of the runs")
 	add("C18", "1/6 of the runs have 2-3 writers at once: the retained window must parse as a chain of whole Writes", "every statement of the backlog package is a scheduling point")
-	add("C19", "AUTH rejected by a server that echoes the arguments of the command it does not know (sync, restore, checkpoint, supervisor scenarios)", "unprotected source; supervisor round with a late master")
+	add("C19", "AUTH rejected by a server that echoes the arguments of the command it does not know (sync, restore, checkpoint, supervisor scenarios)", "unprotected source; supervisor round with a late master", "two more run paths: dump mode (CmdDump.Main against a master) and decode mode")
 	add("C20", "a quarter of the runs are a restart chain through the real DbSyncer.Sync: each discovery is followed by a refused PSYNC, the master role moves between restarts")
 }
